@@ -4,6 +4,7 @@ Generated plugin graphs (vf/graphs.py) x independent chunkings per source x proc
 subset x thread schedule (threaded runs execute under the controlled scheduler).  Oracle: the pure whole-run
 reference evaluator `graphs.evaluate` + tiling / containment predicate + re-read of everything stored.
 """
+import contextlib
 import itertools
 import os
 import shutil
@@ -50,7 +51,7 @@ _COUNTER = itertools.count()
 
 
 @st.composite
-def st_case(draw, threaded=None, ops=graphs.ALL_OPS):
+def st_case(draw, threaded=None, ops=graphs.ALL_OPS, multiprocess=False):
     spec = draw(graphs.st_graph(max_nodes=5, ops=ops, save_policies=True))
     unit = draw(st.sampled_from([1, 1, 7, 1000]))
     rows = {}
@@ -75,6 +76,40 @@ def st_case(draw, threaded=None, ops=graphs.ALL_OPS):
         cap = draw(st.sampled_from([1, 2, 3, 4, nchunks + 3]))
     cfg = dict(processor=proc, max_workers=draw(st.sampled_from([1, 1, 2, 3])), allow_lazy=draw(st.booleans()),
                max_messages=cap, allow_rechunk=draw(st.booleans()))
+    if multiprocess:
+        # strax's multiprocessing path: plugins with parallel='process' (and parallel plugins hanging off them) and
+        # their non-rechunking savers are inlined into one job per chunk that crosses a process boundary
+        # (simulated: pickled copy in, pickled result out, see vf.sched.scheduler.SimProcessExecutor)
+        cfg.update(max_workers=draw(st.sampled_from([2, 2, 3])), allow_multiprocess=True)
+        marked = False
+        for n in spec["nodes"]:
+            if n["op"] in ("overlap", "downchunk", "exhaust"):
+                continue
+            r = draw(st.integers(0, 5))
+            if n["op"] == "source":
+                if r <= 2:
+                    n["parallel"], marked = "process", True
+            elif r <= 1:
+                n["parallel"], marked = "process", True
+            elif r <= 4:
+                n["parallel"] = True
+        if not marked:
+            spec["nodes"][0]["parallel"] = "process"
+        # a saver is inlined (forked) when its plugin is, the output is saved by this request and is not
+        # rechunked on save: make that frequent
+        if draw(st.booleans()):
+            stored = []
+        for n in spec["nodes"]:
+            if n["op"] == "downchunk":
+                continue
+            if draw(st.integers(0, 3)) > 0:
+                ros = n.get("rechunk_on_save")
+                n["rechunk_on_save"] = {o: False for o in ros} if isinstance(ros, dict) else False
+            if draw(st.booleans()):
+                sw = n.get("save_when")
+                n["save_when"] = {o: 3 for o in sw} if isinstance(sw, dict) else 3
+        return dict(spec=spec, unit=unit, rows=rows, t1=t1, cutsA=cutsA, cutsB=cutsB, stored=stored, target=target,
+                    cfg=cfg, policy=draw(policies.st_policy()))
     for n in spec["nodes"]:
         if n["op"] not in ("source", "overlap", "downchunk", "exhaust") and draw(st.integers(0, 3)) == 0:
             n["parallel"] = True
@@ -98,7 +133,7 @@ def set_sources(rt, d, which, run_id="r"):
 def make_context(classes, storage, cfg=None, **kw):
     cfg = cfg or {}
     opts = dict(allow_multiprocess=False, timeout=60)
-    for k in ("allow_lazy", "max_messages", "allow_rechunk"):
+    for k in ("allow_lazy", "max_messages", "allow_rechunk", "allow_multiprocess"):
         if k in cfg:
             opts[k] = cfg[k]
     opts.update(kw)
@@ -122,6 +157,25 @@ def run_pipeline(ctx, target, cfg, policy, collect="iter", run_id="r", **kw):
         return job(), None, None
     except Exception as e:  # noqa
         return None, e, None
+
+
+@contextlib.contextmanager
+def forked_saver_probe():
+    """Counts chunk-metadata writes of savers that strax inlined into a (simulated) worker process."""
+    from strax.storage.files import FileSaver
+    orig = FileSaver._save_chunk_metadata
+    probe = dict(forked=0)
+
+    def _save_chunk_metadata(self, chunk_info):
+        if self.is_forked:
+            probe["forked"] += 1
+        return orig(self, chunk_info)
+
+    FileSaver._save_chunk_metadata = _save_chunk_metadata
+    try:
+        yield probe
+    finally:
+        FileSaver._save_chunk_metadata = orig
 
 
 def check_sched(S, d):
@@ -211,7 +265,14 @@ def _run_case(d, spec, unit, token, rt, path):
     set_sources(rt, d, "cutsB")
     rt["calls"].clear()
     ctxB = make_context(classes, [strax.DataDirectory(path)], cfg)
-    chunks, exc, S = run_pipeline(ctxB, d["target"], cfg, d["policy"])
+    from vf.sched.scheduler import SimProcessExecutor
+    crossings0 = SimProcessExecutor.crossings
+    with forked_saver_probe() as probe:
+        chunks, exc, S = run_pipeline(ctxB, d["target"], cfg, d["policy"])
+    if SimProcessExecutor.crossings > crossings0:
+        classes_hit.append("inlined_job_crossed_process_boundary")
+    if probe["forked"]:
+        classes_hit.append("forked_saver")
     if exc is not None:
         raise Violation("request.raised:" + type(exc).__name__, f"{exc!r} {d}") from exc
     check_sched(S, d)
@@ -265,4 +326,6 @@ def steer(d, spec, prov):
 SUBCHECKS = [
     SubCheck("single", run_case, strategy=lambda: st_case(threaded=False), quick=4000, thorough=120000),
     SubCheck("threaded", run_case, strategy=lambda: st_case(threaded=True), quick=3000, thorough=80000),
+    SubCheck("multiprocess", run_case, strategy=lambda: st_case(threaded=True, multiprocess=True), quick=1500,
+             thorough=40000, required_classes=("inlined_job_crossed_process_boundary", "forked_saver")),
 ]
